@@ -543,3 +543,120 @@ def licensed_edges(fn, want_fn):
             if all(lic_when_false) and f is not None:
                 out.add((b, f))
     return out, n_atoms
+
+
+# ------------------------------------------------------------------------------------------------------------------
+# name-independent description of expressions: where do the values come from?
+
+def all_defs(fn, name):
+    """definitions of a local incl. guard acquisitions: list of node ids (rhs of decl/assignment, or the acquiring call itself)"""
+    key = ("alldefs", id(fn), name)
+    if key in _defs_cache:
+        return _defs_cache[key]
+    out = [d for d in local_defs(fn, name) if d is not None]
+    for b, i, e, n in fn.events(live_only=True):
+        if n["k"] == "call" and n.get("member"):
+            leaf = n.get("callee", "").split("::")[-1]
+            c = fn.kids(e)
+            if leaf in ("acquire", "acquire_if_equal") and c and fn.nodes[c[0]]["k"] == "ref" and fn.nodes[c[0]].get("name") == name:
+                out.append(e)
+    _defs_cache[key] = out
+    return out
+
+
+def srcs(fn, nid, depth=0, seen=None):
+    """set of source tags of an expression, with locals expanded through all their definitions (flow-insensitive, bounded):
+    load:<field leaf> (atomic load / guard acquisition from that field), call:<callee leaf>, param#<i>, field:<leaf>, const, this"""
+    if seen is None:
+        seen = set()
+    out = set()
+    if nid is None or nid < 0 or depth > 6 or nid in seen:
+        return out
+    seen.add(nid)
+    n = fn.nodes[nid]
+    k = n["k"]
+    a = fn.atomic(nid) if k == "call" else None
+    if a:
+        if a["kind"] in ("load", "rmw", "cas"):
+            fld = a["field"]
+            if fld.startswith("param:"):
+                idx = next((i for i, p in enumerate(fn.params) if p["name"] == fld[6:]), -1)
+                out.add("load:param#%d" % idx)
+            else:
+                out.add("load:" + fld.split("::")[-1].replace("[]", ""))
+        for c in fn.kids(nid)[1:]:
+            out |= srcs(fn, c, depth + 1, seen)
+        return out
+    if k == "call":
+        leaf = n.get("callee", "?").split("::")[-1]
+        c = fn.kids(nid)
+        if leaf in ("acquire", "acquire_if_equal", "acquire_guard") and len(c) >= 1:
+            idx = 1 if n.get("member") else 0
+            if idx < len(c):
+                out.add("load:" + fn.field_of(c[idx]).split("::")[-1].replace("[]", ""))
+            return out
+        out.add("call:" + leaf)
+        for x in c:
+            out |= srcs(fn, x, depth + 1, seen)
+        return out
+    if k == "ref":
+        if n.get("dk") == "param":
+            idx = next((i for i, p in enumerate(fn.params) if p["name"] == n["name"]), -1)
+            out.add("param#%d" % idx)
+            return out
+        if n.get("dk") == "local":
+            for d in all_defs(fn, n["name"]):
+                out |= srcs(fn, d, depth + 1, seen)
+            if not out:
+                out.add("local:" + n["name"])
+            return out
+        if "v" in n:
+            out.add("const")
+        else:
+            out.add("global:" + n.get("name", "?").split("::")[-1])
+        return out
+    if k == "member":
+        out.add("field:" + n.get("leaf", "?"))
+        for c in fn.kids(nid):
+            out |= srcs(fn, c, depth + 1, seen)
+        return out
+    if k in ("lit", "null"):
+        out.add("const")
+        return out
+    if k == "this":
+        out.add("this")
+        return out
+    for c in fn.kids(nid):
+        out |= srcs(fn, c, depth + 1, seen)
+    return out
+
+
+def has_src(fn, nid, *tags):
+    s = srcs(fn, nid)
+    return all(any(t == x or (t.endswith("*") and x.startswith(t[:-1])) for x in s) for t in tags)
+
+
+def cmp_between(fn, nid, ops, left_tags, right_tags):
+    """binary comparison (either orientation) whose one operand derives from all left_tags and the other from all right_tags"""
+    n = fn.nodes[nid]
+    c = fn.kids(nid)
+    if n["k"] == "bin" and n.get("op") in ops and len(c) == 2:
+        pass
+    elif n["k"] == "call" and n.get("callee", "").split("::")[-1] in tuple("operator" + o for o in ops) and len(c) == 2:
+        pass
+    else:
+        return False
+    return (has_src(fn, c[0], *left_tags) and has_src(fn, c[1], *right_tags)) or (has_src(fn, c[1], *left_tags) and has_src(fn, c[0], *right_tags))
+
+
+def _deep_text(fn, nid, depth=0):
+    """expression text with local variables followed through their definitions (bounded)"""
+    txt = fn.expr(nid)
+    if depth > 2:
+        return txt
+    for x in fn.subtree(nid):
+        n = fn.nodes[x]
+        if n["k"] == "ref" and n.get("dk") == "local":
+            for d in all_defs(fn, n["name"]):
+                txt += " <= " + _deep_text(fn, d, depth + 1)
+    return txt
